@@ -5,7 +5,6 @@ import (
 	"go/ast"
 	"go/token"
 	"go/types"
-	"regexp"
 	"strings"
 
 	"dsverif/internal/an"
@@ -26,7 +25,7 @@ func init() {
 func runC14(c *core.Ctx) {
 	c.Rule("R1", "no in-band sentinel on unsigned locals in the range builders", 2)
 	c.Rule("R3", "k-way merge: an ended sequence never beats a live one holding the end marker's value (2^32-1 is a token)", 1)
-	c.Rule("R4", "arithmetic on 32-bit keys/tokens in lookup and range code is confined to the reviewed sites; guarded sites keep their guard", 7)
+	c.Rule("R4", "arithmetic on 32-bit keys/tokens in lookup and range code is confined to the reviewed shapes and site counts; guarded sites keep their guard", 4)
 	c.Rule("R5", "token lists fed to the k-way merge are sorted by both producers", 2)
 	c.Rule("R6", "the token→instance map shared between a ring and its subrings is immutable (shared with C13.R7)", 1)
 	c.Rule("R7", "no selection loop over tokens starts from the extreme value of the domain as 'nothing selected'", 1)
@@ -237,12 +236,12 @@ func c14MergeMarker(c *core.Ctx, pkg *packages.Package) {
 // c14Reviewed lists every non-constant addition/subtraction on 32-bit key or token values in the
 // ring's lookup and range code, keyed by function and canonical expression, with the reason it cannot
 // wrap wrongly. A new site is undecided until it has been reviewed (key arithmetic wraps silently).
-var c14Reviewed = map[string]string{
-	"(*PartitionRing).GetTokenRangesForPartition$1|(λp0 - 1)":                                            "compared with the previous range end only: start==0 yields 2^32-1, which no earlier range of the ascending walk can end at (the wrap-around range is added last)",
-	"(*PartitionRing).GetTokenRangesForPartition|(each(recv.desc.Partitions[p0].Tokens) - 1)":            "intended wrap: the owner of token 0 owns the range ending at 2^32-1, handled as the 'last range'",
-	"(*Ring).GetTokenRangesForInstance|(recv.ringTokensByZone[recv.ringDesc.Ingesters[p0].Zone][ℓ] - 1)": "i > 0 in a strictly ascending token list: the token is ≥ 1",
-	"(*Ring).GetTokenRangesForInstance|(recv.ringTokensByZone[recv.ringDesc.Ingesters[p0].Zone][0] - 1)": "guarded by firstToken != 0 (checked below)",
-	"tokenDistance|(p1 - p0)": "guarded by from < to (checked below)",
+var c14Reviewed = map[string]struct {
+	n   int
+	why string
+}{
+	"(x - 1)": {4, "GetTokenRangesForPartition: start-1 is only compared with the previous range end (start==0 yields 2^32-1, which no earlier range of the ascending walk can end at), and token-1 wraps on purpose (the owner of token 0 owns the range ending at 2^32-1, handled as the 'last range'); GetTokenRangesForInstance: token-1 for tokens at index > 0 of a strictly ascending list (≥ 1), and firstToken-1 guarded by firstToken != 0 (checked separately)"},
+	"(x - x)": {1, "tokenDistance: to-from, guarded by from < to (checked separately)"},
 }
 
 func c14Arithmetic(c *core.Ctx, pkg *packages.Package) {
@@ -257,7 +256,8 @@ func c14Arithmetic(c *core.Ctx, pkg *packages.Package) {
 		b, ok := t.Underlying().(*types.Basic)
 		return ok && b.Kind() == types.Uint32
 	}
-	seen := map[string]bool{}
+	sites := map[string][]string{}
+	firstPos := map[string]token.Pos{}
 	var all []*an.Fn
 	for _, top := range an.Funcs(pkg) {
 		all = append(all, top)
@@ -287,43 +287,34 @@ func c14Arithmetic(c *core.Ctx, pkg *packages.Package) {
 			if expr == nil {
 				return true
 			}
-			canon := fn.Canon(expr)
-			// locals that are assigned more than once keep their name in the canonical form: make the key independent of it
-			var visit func(e ast.Expr, depth int)
-			visit = func(e ast.Expr, depth int) {
-				ast.Inspect(e, func(m ast.Node) bool {
-					id, ok := m.(*ast.Ident)
-					if !ok {
-						return true
-					}
-					v, ok := fn.Info().Uses[id].(*types.Var)
-					if !ok || v.IsField() || v.Parent() == nil || v.Parent() == v.Pkg().Scope() {
-						return true
-					}
-					if fn.DefCount(v) > 1 {
-						canon = regexp.MustCompile(`\b`+regexp.QuoteMeta(id.Name)+`\b`).ReplaceAllString(canon, "ℓ")
-					} else if d, ok := fn.SingleDefExpr(v); ok && depth < 4 {
-						visit(d, depth+1)
-					}
-					return true
-				})
-			}
-			visit(expr, 0)
-			key := fn.Name + "|" + canon
-			if why, ok := c14Reviewed[key]; ok {
-				if !seen[key] {
-					seen[key] = true
-					c.Hold("R4", "arith:"+key, pos, "reviewed: "+why, 1)
+			// the site is identified by its shape — operator and constant operands — not by the function it sits
+			// in or the spelling of its variable operands: moving it into a helper or renaming changes neither
+			be := expr.(*ast.BinaryExpr)
+			opnd := func(e ast.Expr) string {
+				if tv, ok := fn.Info().Types[e]; ok && tv.Value != nil {
+					return tv.Value.ExactString()
 				}
-			} else {
-				c.Undec("R4", "arith:"+key, pos, "arithmetic on a 32-bit key or token value that is not in the reviewed table (props/c14.go): it wraps silently at 0 / 2^32-1, where the property quantifies explicitly")
+				return "x"
+			}
+			shape := "(" + opnd(be.X) + " " + be.Op.String() + " " + opnd(be.Y) + ")"
+			sites[shape] = append(sites[shape], fn.Name+": "+fn.Canon(expr)+" at "+c.Prog.PosStr(pos))
+			if firstPos[shape] == token.NoPos {
+				firstPos[shape] = pos
 			}
 			return true
 		})
 	}
-	for key := range c14Reviewed {
-		if !seen[key] {
-			c.Miss("R4", "arith:"+key, "reviewed arithmetic site no longer present (table out of date)")
+	for shape, want := range c14Reviewed {
+		got := sites[shape]
+		if len(got) == want.n {
+			c.Hold("R4", "arith:shape="+shape, firstPos[shape], fmt.Sprintf("%d sites, all reviewed: %s", want.n, want.why), want.n)
+		} else {
+			c.Undec("R4", "arith:shape="+shape, firstPos[shape], fmt.Sprintf("%d sites of this shape were reviewed (%s), %d found: %v — a new piece of arithmetic on a 32-bit key or token wraps silently at 0 / 2^32-1, where the property quantifies explicitly", want.n, want.why, len(got), got))
+		}
+	}
+	for shape, got := range sites {
+		if _, ok := c14Reviewed[shape]; !ok {
+			c.Undec("R4", "arith:shape="+shape, firstPos[shape], fmt.Sprintf("arithmetic of a shape that has not been reviewed on 32-bit keys or tokens: %v (it wraps silently at 0 / 2^32-1)", got))
 		}
 	}
 	// the two guarded sites: the guard is still there
